@@ -298,7 +298,11 @@ func (fv *FuncVC) callWithContractEnv(x *ssa.Call, cc *FuncContract, extra map[s
 			continue
 		}
 		// a nil slice / map / pointer designates no memory: nothing can be written through it
-		fv.oblige("frame@call", "frame@call:"+calleeName, frameProps, or(eq(m.id, "0"), fv.writable(m.heap, m.id)), x.Pos(), fmt.Sprintf("%s may write %s, which must be writable here", calleeName, m.heap))
+		goalW := or(eq(m.id, "0"), fv.writable(m.heap, m.id))
+		if m.cond != "" {
+			goalW = implies(m.cond, goalW)
+		}
+		fv.oblige("frame@call", "frame@call:"+calleeName, frameProps, goalW, x.Pos(), fmt.Sprintf("%s may write %s, which must be writable here", calleeName, m.heap))
 	}
 	if cc.Pure {
 		mods = nil
